@@ -290,7 +290,7 @@ def random_shard(seed, n_examples):
 
 # ---- compositions of fixed-point operations ---------------------------------------
 
-COMP_OPS = ["add", "sub", "mul", "truediv", "floordiv", "mod", "neg"]
+COMP_OPS = ["add", "sub", "mul", "truediv", "floordiv", "mod", "neg", "abs", "sub", "mul"]
 
 
 def compose_case(case):
@@ -324,7 +324,7 @@ def compose_case(case):
         if e is refsem.RAISES:
             return None, info
         stmts.append(["op", op, args])
-        refs.append(("F", e[1]))
+        refs.append(("B", Fraction(e[1])) if e[0] == "bool" else ("F", e[1]))
         info["ops"].append(op)
     prog = {"cfg": cfg, "stmts": [s_ for s_ in stmts if s_ is not None]}
     # env index of each entry (skipped nodes produce no value): recompute references
@@ -345,6 +345,11 @@ def compose_case(case):
         if s_ is None or s_[0] != "op":
             continue
         e = idx[pos]
+        if e < len(m.vals) and refs[pos][0] == "B":
+            if m.types[e] != "B" or int(m.refval(e)) != int(refs[pos][1]):
+                return ("composition %r over leaves %r (resolution %d): node %d (%s) is %r, the order of the represented numbers gives %d" % (
+                    case["nodes"], case["leaves"], r, pos - len(case["leaves"]), s_[1], m.refval(e), int(refs[pos][1]))), info
+            continue
         if e >= len(m.vals) or m.types[e] != "F":
             continue
         got = m.vals[e].lc.value
@@ -373,13 +378,18 @@ def compose_shard(seed, n_examples):
             leaves.append((t, v))
         if not any(t == "F" for t, _ in leaves):
             leaves[0] = ("F", leaves[0][1] if leaves[0][0] in "Ff" else leaves[0][1] * (1 << r))
+        if draw(st.integers(0, 2)) == 0:
+            k_ = [k for k, (t, _) in enumerate(leaves) if t == "F"][0]
+            leaves.append(leaves[k_])          # two inputs with the same type and value: differences are 0, squares meet themselves
         nodes = []
         n = len(leaves)
         fx = [k for k, (t, _) in enumerate(leaves) if t == "F"]     # every node has a fixed-point operand, hence is fixed-point
         for _ in range(draw(st.integers(2, 4))):
             op = draw(st.sampled_from(COMP_OPS))
-            if op == "neg":
+            if op in ("neg", "abs"):
                 i, j = draw(st.sampled_from(fx)), None
+            elif op == "mul" and draw(st.integers(0, 3)) == 0:
+                i = j = draw(st.sampled_from(fx))        # x * x: the very same object on both sides
             else:
                 i, j = draw(st.integers(0, n - 1)), draw(st.sampled_from(fx))
                 if draw(st.booleans()):
@@ -387,6 +397,14 @@ def compose_shard(seed, n_examples):
             nodes.append((op, i, j))
             fx.append(n)
             n += 1
+        if draw(st.booleans()):
+            # the chain ends in a comparison with the constant 0 (0 or 0.0): "is it positive / non-positive"
+            zt = draw(st.sampled_from("if"))
+            leaves.append((zt, 0))
+            shift = 1
+            nodes = [(op_, i_ + (shift if i_ >= len(leaves) - 1 else 0), None if j_ is None else j_ + (shift if j_ >= len(leaves) - 1 else 0)) for op_, i_, j_ in nodes]
+            last = len(leaves) + len(nodes) - 1
+            nodes.append((draw(st.sampled_from(["gt", "le", "lt", "ge", "eq", "ne"])), last, len(leaves) - 1))
         case = {"part": "compose", "cfg": cfg, "leaves": leaves, "nodes": nodes}
         msg, info = compose_case(case)
         nt = bool(info.get("completed")) and len(info["ops"]) >= 2
